@@ -74,6 +74,8 @@ type GroupStmt struct {
 	Body   []Stmt
 	// Via: "" plain Group, "controller" = Router.Controller(prefix, ctl, mw...)
 	Via string
+	// SharedMW > 0: MW is the application's own slice variable #SharedMW, passed as mws... to several groups
+	SharedMW int
 }
 
 type RouteStmt struct {
@@ -143,7 +145,11 @@ func describeStmts(body []Stmt, indent string, out *[]string) {
 			if x.Via != "" {
 				kind = "Controller"
 			}
-			*out = append(*out, fmt.Sprintf("%s%s(%q, mw=%s) {", indent, kind, x.Prefix, mwList(x.MW)))
+			shared := ""
+			if x.SharedMW > 0 {
+				shared = fmt.Sprintf(" (the application's slice variable #%d, spread with ...)", x.SharedMW)
+			}
+			*out = append(*out, fmt.Sprintf("%s%s(%q, mw=%s%s) {", indent, kind, x.Prefix, mwList(x.MW), shared))
 			describeStmts(x.Body, indent+"  ", out)
 			*out = append(*out, indent+"}")
 		case *RouteStmt:
@@ -272,6 +278,18 @@ func (p *Program) Build(extra ...func(*rux.Router)) *rux.Router {
 	opts = append(opts, extra...)
 	r := rux.New(opts...)
 	var atEnd []func()
+	sharedSlices := map[int][]rux.HandlerFunc{}
+	groupMW := func(x *GroupStmt) []rux.HandlerFunc {
+		if x.SharedMW == 0 {
+			return handlersOf(x.MW)
+		}
+		if s, ok := sharedSlices[x.SharedMW]; ok {
+			return s // the very same slice (and backing array) again
+		}
+		s := handlersOf(x.MW)
+		sharedSlices[x.SharedMW] = s
+		return s
+	}
 	var exec func(body []Stmt)
 	exec = func(body []Stmt) {
 		for _, s := range body {
@@ -280,9 +298,9 @@ func (p *Program) Build(extra ...func(*rux.Router)) *rux.Router {
 				r.Use(handlersOf(x.MW)...)
 			case *GroupStmt:
 				if x.Via == "controller" {
-					r.Controller(x.Prefix, progController{add: func(*rux.Router) { exec(x.Body) }}, handlersOf(x.MW)...)
+					r.Controller(x.Prefix, progController{add: func(*rux.Router) { exec(x.Body) }}, groupMW(x)...)
 				} else {
-					r.Group(x.Prefix, func() { exec(x.Body) }, handlersOf(x.MW)...)
+					r.Group(x.Prefix, func() { exec(x.Body) }, groupMW(x)...)
 				}
 			case *RouteStmt:
 				var route *rux.Route
@@ -406,6 +424,7 @@ type progGen struct {
 	noGlobal bool // no top-level Use statements
 	styles   bool // also register through Any / prepared NewRoute+Use+AddRoute / AttachTo
 
+	sharedMW  map[int][]*MW   // slice variables of the application that are passed to several groups
 	curPrefix string          // spelling of the innermost enclosing group's prefix ("" at top level)
 	usedSelf  map[string]bool // (prefix, method) pairs already used for a route path equal to the prefix
 }
@@ -489,6 +508,17 @@ func (g *progGen) body(depth int, budget *int) []Stmt {
 		case x < 5 && depth < g.maxDepth:
 			g.nGroup++
 			gs := &GroupStmt{Prefix: fmt.Sprintf("/g%d", g.nGroup), MW: g.mws("G", g.maxMW)}
+			if chance(g.r, 1, 4) {
+				// middleware handed over as a slice variable that other groups get as well
+				id := 1 + g.r.IntN(2)
+				if g.sharedMW[id] == nil {
+					g.sharedMW[id] = append(g.mws("S", 1), g.mw("S"))
+				}
+				gs.MW, gs.SharedMW = g.sharedMW[id], id
+			}
+			if g.dynamic && chance(g.r, 1, 8) {
+				gs.Prefix += "/{gid}" // a prefix with a path variable
+			}
 			if chance(g.r, 1, 6) {
 				gs.Prefix = fmt.Sprintf("g%d/", g.nGroup) // clean prefix, sloppy spelling
 			}
@@ -513,6 +543,34 @@ func (g *progGen) body(depth int, budget *int) []Stmt {
 			out = append(out, g.route(false))
 		}
 	}
+	if depth < g.maxDepth && *budget > 2 && chance(g.r, 1, 10) {
+		// the application keeps one middleware list and hands it to several sibling groups;
+		// between them a group WITHOUT middleware arguments calls Use
+		id := 1 + g.r.IntN(2)
+		if g.sharedMW[id] == nil {
+			g.sharedMW[id] = append(g.mws("S", 1), g.mw("S"))
+		}
+		mk := func(withShared bool) *GroupStmt {
+			g.nGroup++
+			gs := &GroupStmt{Prefix: fmt.Sprintf("/g%d", g.nGroup)}
+			if withShared {
+				gs.MW, gs.SharedMW = g.sharedMW[id], id
+			}
+			saved := g.curPrefix
+			g.curPrefix = gs.Prefix
+			if !withShared {
+				gs.Body = append(gs.Body, UseStmt{[]*MW{g.mw("g")}})
+			}
+			gs.Body = append(gs.Body, g.route(false))
+			g.curPrefix = saved
+			return gs
+		}
+		*budget -= 3
+		out = append(out, mk(true), mk(false), mk(true))
+		if g.probes {
+			out = append(out, g.route(true))
+		}
+	}
 	return out
 }
 
@@ -520,6 +578,7 @@ func (g *progGen) body(depth int, budget *int) []Stmt {
 func GenProgram(r *rand.Rand, g *progGen) *Program {
 	g.r = r
 	g.usedSelf = map[string]bool{}
+	g.sharedMW = map[int][]*MW{}
 	if g.nexts == nil {
 		g.nexts = func() int {
 			switch x := r.IntN(10); {
@@ -580,5 +639,6 @@ func GenProgram(r *rand.Rand, g *progGen) *Program {
 
 // RequestPath instantiates a route's full path.
 func (rs *RouteStmt) RequestPath(r *rand.Rand) string {
-	return strings.ReplaceAll(rs.FullPath, "{id}", pick(r, []string{"1", "22", "abc"}))
+	p := strings.ReplaceAll(rs.FullPath, "{id}", pick(r, []string{"1", "22", "abc"}))
+	return strings.ReplaceAll(p, "{gid}", pick(r, []string{"7", "red"}))
 }
